@@ -16,7 +16,8 @@ Proof.
   intros _. apply is_nil_spec in Ea, Er. apply set_eqb_spec in Ef. auto.
 Qed.
 
-Lemma check_permit_sound h prev p r cur : check_permit h prev p r cur = 0 -> permit_holds h prev p r cur.
+Lemma check_permit_sound h strict prev p r cur :
+  check_permit h strict prev p r cur = 0 -> permit_holds h strict prev p r cur.
 Proof.
   unfold check_permit, permit_holds. cbv zeta.
   destruct (if gang_of h p =? 0 then None else vget cur (gang_of h p)) as [x|].
@@ -25,9 +26,13 @@ Proof.
     destruct (o_res r =? res_success) eqn:E0.
     + apply Z.eqb_eq in E0.
       destruct (group_validb cur (v_group x)) eqn:Ev; cbn [negb] in H; [|discriminate].
+      destruct (strict && negb (group_validb_real cur (v_group x))) eqn:Esr; [discriminate|].
       destruct (set_eqb (o_allowed r) (members h (v_group x) (sv_fw prev))) eqn:E1; [|discriminate].
       destruct (set_eqb (sv_fw cur) (others h (v_group x) (sv_fw prev))) eqn:E2; [|discriminate].
-      left. apply group_validb_spec in Ev. apply set_eqb_spec in E1, E2. auto.
+      left. apply group_validb_spec in Ev. apply set_eqb_spec in E1, E2.
+      repeat split; auto; try apply E1; try apply E2.
+      intros Hs. rewrite Hs in Esr. cbn [andb] in Esr. apply negb_false_iff in Esr.
+      apply group_validb_real_spec. exact Esr.
     + destruct (o_res r =? res_wait) eqn:E1; [|discriminate]. apply Z.eqb_eq in E1.
       destruct (is_nil (o_allowed r)) eqn:Ea; cbn [negb] in H; [|discriminate].
       destruct (group_validb cur (v_group x)) eqn:Ev; [discriminate|].
@@ -71,7 +76,8 @@ Proof.
     apply quiet_sound. exact E1.
 Qed.
 
-Lemma check_op_sound h prev o r cur : check_op h prev o r cur = 0 -> op_holds h prev o r cur.
+Lemma check_op_sound h strict prev o r cur :
+  check_op h strict prev o r cur = 0 -> op_holds h strict prev o r cur.
 Proof.
   destruct o; cbn [check_op op_holds];
     first [apply check_event_sound | apply check_permit_sound | apply check_rollback_sound].
@@ -85,7 +91,7 @@ Proof.
   unfold step_code.
   set (t' := tainted || permit_guard_viol h prev o).
   destruct (negb t' && negb (all_part_okb cur)) eqn:E1; [discriminate|].
-  destruct (check_op h prev o r cur =? 0) eqn:E2.
+  destruct (check_op h (negb t') prev o r cur =? 0) eqn:E2.
   - apply Z.eqb_eq in E2. intros H. split; [|split].
     + intros Ht. rewrite Ht in E1. cbn [negb andb] in E1. apply negb_false_iff in E1.
       apply all_part_okb_spec. exact E1.
@@ -112,10 +118,10 @@ Proof.
     rewrite Es'. apply all_part_step; [apply Hinv; exact Ht | exact Hg]. }
   assert (Hc : step_code h t' (view s) o r (view s') = 0).
   { unfold step_code. destruct t' eqn:Et; cbn [negb andb].
-    - rewrite Es', Er. apply check_op_ok.
+    - rewrite Es', Er. apply check_op_ok. discriminate.
     - assert (Hp : all_part_okb (view s') = true).
       { apply all_part_okb_spec. apply all_part_view. apply Hinv'. reflexivity. }
-      rewrite Hp. cbn [negb]. rewrite Es', Er. apply check_op_ok. }
+      rewrite Hp. cbn [negb]. rewrite Es', Er. apply check_op_ok. intros _. rewrite <- Es'. apply Hinv'. reflexivity. }
   rewrite Hc. cbn. apply IH. exact Hinv'.
 Qed.
 
@@ -169,7 +175,8 @@ Theorem release_iff_group_valid h s p s' r :
   /\ (o_res r = res_success \/ o_res r = res_wait).
 Proof.
   intros Es x Ex Hg.
-  pose proof (check_permit_ok h s p) as Hc. cbn [step] in Es. rewrite Es in Hc. cbn [fst snd] in Hc.
+  pose proof (check_permit_ok h false s p) as Hc. cbn [step] in Es. rewrite Es in Hc. cbn [fst snd] in Hc.
+  specialize (Hc ltac:(discriminate)).
   apply check_permit_sound in Hc. destruct Hc as [_ Hc].
   apply Z.eqb_neq in Hg. rewrite Hg, vget_view, Ex in Hc. cbn [option_map] in Hc.
   destruct Hc as [(H1 & H2 & _)|(H1 & H2 & _)].
@@ -177,11 +184,29 @@ Proof.
   - split; [|right; exact H1]. split; [|tauto]. rewrite H1. discriminate.
 Qed.
 
+(* under the protocol guard the members counted by a Success really are children of their gangs *)
+Theorem release_counts_real_members h s p s' r :
+  all_part s -> permit_ok h s (Permit p) = true ->
+  step h s (Permit p) = (s', r) -> o_res r = res_success ->
+  forall x, get_gang s' (gang_of h p) = Some x -> gang_of h p <> 0 ->
+  group_valid_real (view s') (g_group x).
+Proof.
+  intros Hs Hg Es Hr x Ex Hne.
+  assert (Hs' : all_part s').
+  { replace s' with (fst (step h s (Permit p))) by (rewrite Es; reflexivity). apply all_part_step; assumption. }
+  pose proof (check_permit_ok h true s p) as Hc. cbn [step] in Es. rewrite Es in Hc. cbn [fst snd] in Hc.
+  specialize (Hc (fun _ => Hs')).
+  apply check_permit_sound in Hc. destruct Hc as [_ Hc].
+  apply Z.eqb_neq in Hne. rewrite Hne, vget_view, Ex in Hc. cbn [option_map] in Hc.
+  destruct Hc as [(_ & _ & H3 & _)|(H1 & _)]; [apply H3; reflexivity | rewrite H1 in Hr; discriminate].
+Qed.
+
 Theorem allow_only_on_success h s o s' r :
   step h s o = (s', r) -> o_allowed r <> [] -> exists p, o = Permit p /\ o_res r = res_success.
 Proof.
   intros Es Hne.
-  pose proof (check_op_ok h s o) as Hc. rewrite Es in Hc. cbn [fst snd] in Hc.
+  pose proof (check_op_ok h false s o) as Hc. rewrite Es in Hc. cbn [fst snd] in Hc.
+  specialize (Hc ltac:(discriminate)).
   apply check_op_sound in Hc.
   destruct o; cbn [op_holds] in Hc;
     try (destruct Hc as [Ha _]; congruence).
@@ -198,13 +223,14 @@ Theorem allow_all_on_success h s p s' r :
     forall q, In q (st_fw s) -> In (gang_of h q) (g_group x) -> In q (o_allowed r) /\ ~ In q (st_fw s').
 Proof.
   intros Es Hr.
-  pose proof (check_permit_ok h s p) as Hc. cbn [step] in Es. rewrite Es in Hc. cbn [fst snd] in Hc.
+  pose proof (check_permit_ok h false s p) as Hc. cbn [step] in Es. rewrite Es in Hc. cbn [fst snd] in Hc.
+  specialize (Hc ltac:(discriminate)).
   apply check_permit_sound in Hc. destruct Hc as [_ Hc].
   destruct (gang_of h p =? 0) eqn:Eg.
   - destruct Hc as (_ & H1 & _). congruence.
   - rewrite vget_view in Hc. destruct (get_gang s' (gang_of h p)) as [x|]; cbn [option_map] in Hc.
     + exists x. split; [reflexivity|].
-      destruct Hc as [(_ & _ & Ha & Hf)|(H1 & _)]; [|rewrite H1 in Hr; discriminate].
+      destruct Hc as [(_ & _ & _ & Ha & Hf)|(H1 & _)]; [|rewrite H1 in Hr; discriminate].
       intros q Hq Hg. cbn in Ha, Hf. split.
       * apply Ha. unfold members. apply filter_In. split; [exact Hq|]. unfold in_group. apply memZ_In. exact Hg.
       * intros Hin. apply Hf in Hin. unfold others in Hin. apply filter_In in Hin. destruct Hin as [_ Hn].
@@ -221,7 +247,8 @@ Theorem strict_reject_all h s o p s' r :
     In q (o_rejected r) /\ ~ In q (st_fw s').
 Proof.
   intros Ho Es x Ex Hg Hs Hne q Hq Hin Hgrp.
-  pose proof (check_op_ok h s o) as Hc. rewrite Es in Hc. cbn [fst snd] in Hc.
+  pose proof (check_op_ok h false s o) as Hc. rewrite Es in Hc. cbn [fst snd] in Hc.
+  specialize (Hc ltac:(discriminate)).
   apply check_op_sound in Hc.
   assert (Hm : must_reject (gview_of s' x) = true).
   { unfold must_reject. cbn. rewrite Hs. cbn. apply negb_true_iff. apply andb_false_iff.
